@@ -4,18 +4,18 @@
 // against references written here from the algorithms' definitions:
 //   - Hash        == hash/crc32 ChecksumIEEE (standard library);
 //   - Hash64      == a 64-bit register shifted right by one byte per input byte and xor-ed with the
-//                    *sign-extended* entry of the ordinary 32-bit CRC table (reflected polynomial
-//                    0xEDB88320, table generated here bit by bit) selected by (low byte ^ input);
-//                    initial value and final xor all-ones. HashUtil.go's table is the 32-bit CRC-32 table
-//                    stored as int64; Hash64 truncates the entry to int32 and sign-extends it. It is not one
-//                    of the catalogued CRC-64s;
+//     *sign-extended* entry of the ordinary 32-bit CRC table (reflected polynomial
+//     0xEDB88320, table generated here bit by bit) selected by (low byte ^ input);
+//     initial value and final xor all-ones. HashUtil.go's table is the 32-bit CRC-32 table
+//     stored as int64; Hash64 truncates the entry to int32 and sign-extends it. It is not one
+//     of the catalogued CRC-64s;
 //   - Hash64v2/V2 == the 64-bit register is first shifted right by one byte (so the high half feeds
-//                    the low half), then each 32-bit half is xor-ed with the table entry selected by
-//                    (its own low byte after the shift ^ input); written here as two 32-bit lanes;
+//     the low half), then each 32-bit half is xor-ed with the table entry selected by
+//     (its own low byte after the shift ^ input); written here as two 32-bit lanes;
 //   - murmur      == MurmurHash2 in the layout of stream-lib's MurmurHash.java (32-bit: 4-byte little
-//                    endian blocks, tail folded as data[len-3]<<16, data[len-2]<<8, data[len-1];
-//                    hashLong: the two 32-bit halves of a long as two blocks, seed 0, no length;
-//                    64-bit: MurmurHash64A), bytes taken as unsigned.
+//     endian blocks, tail folded as data[len-3]<<16, data[len-2]<<8, data[len-1];
+//     hashLong: the two 32-bit halves of a long as two blocks, seed 0, no length;
+//     64-bit: MurmurHash64A), bytes taken as unsigned.
 package c15
 
 import (
@@ -288,8 +288,8 @@ func (c BytesCase) bytes() []byte {
 }
 
 var specBytes = pbt.Register(pbt.Spec[BytesCase]{
-	Prop: "C15", Name: "hash-random-strings",
-	Rule: "byte strings of length 0..4096 (short random ones, all lengths 0..40 so that every block/tail combination of the 4- and 8-byte murmur loops occurs, lengths around 255/256/4096, bytes >= 0x80 frequent; nil and empty) through every hash of util/hash and the byte-string murmur hashes with a random seed / prefix length, each against the reference; non-trivial = length >= 3; distinct by input bytes, seed, prefix",
+	Prop: "C15", Name: "hash-random-strings", Parallel: 8,
+	Rule:  "byte strings of length 0..4096 (short random ones, all lengths 0..40 so that every block/tail combination of the 4- and 8-byte murmur loops occurs, lengths around 255/256/4096, bytes >= 0x80 frequent; nil and empty) through every hash of util/hash and the byte-string murmur hashes with a random seed / prefix length, each against the reference; non-trivial = length >= 3; distinct by input bytes, seed, prefix",
 	Quick: 300000, Thorough: 1000000,
 	Draw: func(t *rapid.T) BytesCase {
 		c := BytesCase{Seed: rapid.Uint32().Draw(t, "seed")}
@@ -374,8 +374,8 @@ type IntCase struct {
 }
 
 var specMurmurInt = pbt.Register(pbt.Spec[IntCase]{
-	Prop: "C15", Name: "murmur-integers",
-	Rule: "64-bit integers (uniform, boundary catalogue, single bits, upper-half-only) through MurmurHashLong and their low 32 bits through MurmurHash, against hashLong written in Java int arithmetic; non-trivial = value >= 2^8; distinct by value",
+	Prop: "C15", Name: "murmur-integers", Parallel: 8,
+	Rule:  "64-bit integers (uniform, boundary catalogue, single bits, upper-half-only) through MurmurHashLong and their low 32 bits through MurmurHash, against hashLong written in Java int arithmetic; non-trivial = value >= 2^8; distinct by value",
 	Quick: 300000, Thorough: 2000000,
 	Draw: func(t *rapid.T) IntCase {
 		switch rapid.IntRange(0, 3).Draw(t, "kind") {
